@@ -16,6 +16,9 @@ import (
 	"gorm.io/gorm"
 	"gorm.io/gorm/logger"
 
+	"github.com/pinealctx/neptune/ulog"
+	"go.uber.org/zap/zapcore"
+
 	"verifh/ev"
 	_ "verifh/quiet"
 	"verifh/seq"
@@ -219,7 +222,9 @@ func count(ev []string, what string) int {
 	return n
 }
 
-func check(c *seq.Ctx, kinds []stepKind, failBegin, failCommit, failRollback bool, wrap string) {
+func check(c *seq.Ctx, kinds []stepKind, failBegin, failCommit, failRollback bool, wrap string, level zapcore.Level) {
+	ulog.SetLogLevel(level)
+	defer ulog.SetLogLevel(zapcore.DebugLevel)
 	e := &env{failBegin: failBegin, failCommit: failCommit, failRollback: failRollback}
 	g, sdb, err := open(e)
 	if err != nil {
@@ -260,7 +265,7 @@ func check(c *seq.Ctx, kinds []stepKind, failBegin, failCommit, failRollback boo
 		res = gormx.Transact(g, steps...)
 		return ""
 	}()
-	desc := fmt.Sprintf("steps=%v begin-fails=%v commit-fails=%v rollback-fails=%v wrap=%s", names, failBegin, failCommit, failRollback, wrap)
+	desc := fmt.Sprintf("steps=%v begin-fails=%v commit-fails=%v rollback-fails=%v wrap=%s log-level=%v", names, failBegin, failCommit, failRollback, wrap, level)
 	firstFail := -1
 	for i, k := range kinds {
 		if k.fails() {
@@ -421,7 +426,7 @@ func checkHeld(c *seq.Ctx, kinds []stepKind, callerCommits bool) {
 
 func main() {
 	r := ev.Start("C18")
-	r.Rule("every step list of length 0..n over {ok, ok+Exec, returns error, Exec fails, panics(string), panics(error), panics(nil), special error values, a nested Transact on the step's own handle with its result ignored/returned} x begin ok/fails x commit ok/fails x rollback ok/fails x {plain, Combine(all), Combine(tail), nested Combine}, run through gormx.Transact on gorm's MySQL dialector over an in-process database/sql driver that records Begin/Exec/Commit/Rollback; plus Transact on a handle the caller already began a transaction on (no step, error, caller's transaction untouched and still finishable); distinct = (length, outcome class, fault pattern, wrapping)")
+	r.Rule("every step list of length 0..n over {ok, ok+Exec, returns error, Exec fails, panics(string), panics(error), panics(nil), special error values, a nested Transact on the step's own handle with its result ignored/returned} x begin ok/fails x commit ok/fails x rollback ok/fails x {plain, Combine(all), Combine(tail), nested Combine}, run through gormx.Transact on gorm's MySQL dialector over an in-process database/sql driver that records Begin/Exec/Commit/Rollback; plus Transact on a handle the caller already began a transaction on (no step, error, caller's transaction untouched and still finishable); lists of length <= 2 also under global log levels info/error/dpanic/fatal; distinct = (length, outcome class, fault pattern, wrapping)")
 	r.Assume("a failing driver callback has no effect", "panic(nil) follows the toolchain's semantics for the harness module (go 1.21: *runtime.PanicNilError)")
 	n := r.Pick(3, 4)
 	seq.RunFamily(r, seq.Family{Name: "transact", Run: func(c *seq.Ctx) {
@@ -439,7 +444,13 @@ func main() {
 								if fb && (fc || fr) && len(kinds) > 1 {
 									continue // begin fails: commit/rollback faults are unreachable; kept for the short lists only
 								}
-								check(c, kinds, fb, fc, fr, w)
+								check(c, kinds, fb, fc, fr, w, zapcore.DebugLevel)
+								if len(kinds) <= 2 && w == "plain" {
+									// the outcome must not depend on how much is logged
+									for _, lv := range []zapcore.Level{zapcore.InfoLevel, zapcore.ErrorLevel, zapcore.DPanicLevel, zapcore.FatalLevel} {
+										check(c, kinds, fb, fc, fr, w, lv)
+									}
+								}
 							}
 						}
 					}
